@@ -67,6 +67,10 @@ def run(ctx):
             items.append("S" + hx(text))
     for _ in range(10 if quick else 40):
         items.append("P" + hx(gen_pattern(rng, max_wide=2).encode()))
+    # specifications with precedence directives (several levels each): what one parse records must not reach another's result
+    from .c06 import op_grammar
+    for _ in range(8 if quick else 30):
+        items.append("S" + hx(op_grammar(rng)[0].encode()))
     # every shared table of the pattern parsers is read by some item: each class, plain and negated, alone and in brackets
     directed = ["P" + hx(p.encode()) for p in CLASS_PATTERNS]
     items += directed
